@@ -251,8 +251,11 @@ func handleConn(conn net.Conn, conf *Config) error {
 
 	log.Print("reading frames")
 
-	frameLogIntervalFirstMin *= headerInfo.FPS()
-	frameLogInterval *= headerInfo.FPS()
+	// Scaled per connection: scaling the package level values compounds over
+	// reconnections and reaches zero (a division by zero below) after a few
+	// dozen connections of a 60 fps camera.
+	frameLogIntervalFirstMin := frameLogIntervalFirstMin * headerInfo.FPS()
+	frameLogInterval := frameLogInterval * headerInfo.FPS()
 	rawFrame := make([]byte, headerInfo.FrameSize())
 	for {
 		_, err := io.ReadFull(reader, rawFrame[:5])
